@@ -7,8 +7,9 @@ package jsonproto
 
 // C15: decoding never writes into a shared status
 //@ func (*jsonproto).Unpack
-//@   property C15 C12
+//@   property C15 C12 C06
 //@   requires msgOwnStatus(as(m, type(*socket.message)))
 
 //@   requires[no-pending-refusal] @C12 !ghost.appendFailed
 //@   ensures[refusal-propagated] @C12 result == nil ==> !ghost.appendFailed
+//@   ensures[alloc-within-limit] @C06 ghost.maxAlloc <= old(ghost.maxAlloc) || ghost.maxAlloc <= socket.messageSizeLimit
